@@ -597,3 +597,15 @@ Example ex_collects :
             ((ev_sgn_start, RStart 41%N 1 80 [{| tv_idlen := 3; tv_paylen := 3; tv_start := 0; tv_end := 0 |}] 76%N) :: ex_inputs)
   = [41%N].
 Proof. vm_compute. reflexivity. Qed.
+
+(* ---- the hypothesis "no error report in an honest participant's name" is not idle: an error answer
+   carries no batch identifier, so the (honest, slow) participant 2's error answer to a FINISHED
+   batch, arriving while batch 41 is being signed, is booked on batch 41 - participants 2 and 0 then
+   answer batch 41 correctly (t = 2 correct answers) and nothing is collected; without the stray
+   error answer the same inputs collect the batch ---- *)
+Definition ex_start41 : input :=
+  (ev_sgn_start, RStart 41%N 1 80 [{| tv_idlen := 3; tv_paylen := 3; tv_start := 0; tv_end := 0 |}] 76%N).
+Example late_error_answer_blocks_the_batch :
+  collected 1000 (mkd st_idle ex_ready) [ex_start41; (ev_sgn_error, RSigError 2 (Some 9%N) 96); ex_good 41%N 2; ex_good 41%N 0] = [] /\
+  collected 1000 (mkd st_idle ex_ready) [ex_start41; ex_good 41%N 2; ex_good 41%N 0] = [41%N].
+Proof. vm_compute. split; reflexivity. Qed.
